@@ -45,6 +45,10 @@ func (core *JApiCore) ExpandRawPathVariableShortcuts() *jerr.JApiError {
 			}
 
 			r.schema = ut.Schema // copy schema
+
+			if r.schema.ContentJSight == nil { // a regex, any or empty type
+				return r.pathDirective.KeywordError("the body of the Path DIRECTIVE must be an object")
+			}
 		}
 
 		if err := checkPathSchema(r.schema); err != nil {
